@@ -75,13 +75,36 @@ func LoginURL(id string) string { return LoginBase + id }
 
 // Register creates the ServiceProvider through the public API and stores it under its entity ID.
 func (s *Storage) Register(appID string, m SPMeta) (*serviceprovider.ServiceProvider, error) {
-	sp, err := serviceprovider.NewServiceProvider(appID, &serviceprovider.Config{Metadata: m.XML()}, LoginURL)
+	doc := m.XML()
+	sp, err := serviceprovider.NewServiceProvider(appID, &serviceprovider.Config{Metadata: doc}, LoginURL)
 	if err != nil {
 		return nil, err
 	}
 	s.mu.Lock()
+	if s.SPDocs == nil {
+		s.SPDocs = map[*serviceprovider.ServiceProvider][]byte{}
+	}
+	s.SPDocs[sp] = append([]byte(nil), doc...)
 	s.SPs[m.EntityID] = sp
 	s.Apps[appID] = m.EntityID
 	s.mu.Unlock()
 	return sp, nil
+}
+
+// SPDocTerm: the metadata document a provider was registered with, as the resolved element tree ("(Some tree)"), or "None"
+func (s *Storage) SPDocTerm(sp *serviceprovider.ServiceProvider) string {
+	if sp == nil {
+		return "None"
+	}
+	s.mu.Lock()
+	doc, ok := s.SPDocs[sp]
+	s.mu.Unlock()
+	if !ok {
+		return "None"
+	}
+	root, trailing, err := ResolvedTree(doc)
+	if err != nil || trailing || root.HasContent("BaseID") || !root.AsciiCerts() {
+		return "None"
+	}
+	return "(Some " + root.Coq() + ")"
 }
